@@ -247,8 +247,14 @@ fn permutations<T: Clone>(xs: &[T]) -> Vec<Vec<T>> {
     out
 }
 
-/// `-t` oracle: the text must assemble to a valid component that prints to the same text
-fn check_text(out: &mut Out, id: &str, text: &[u8]) {
+fn is_valid(bytes: &[u8]) -> bool {
+    wasmparser::Validator::new_with_features(wasmparser::WasmFeatures::all()).validate_all(bytes).is_ok()
+}
+
+/// `-t` oracle: the text must assemble to a component that prints to the same text and that is
+/// valid — unless validation was switched off and the binary form of the same result is itself
+/// invalid (`binary` = what the library produced for the same options)
+fn check_text(out: &mut Out, id: &str, text: &[u8], must_validate: bool, binary: Option<&[u8]>) {
     let Ok(s) = std::str::from_utf8(text) else {
         out.fail(id, "-t output is not UTF-8", "");
         return;
@@ -256,13 +262,16 @@ fn check_text(out: &mut Out, id: &str, text: &[u8]) {
     match wat::parse_str(s) {
         Err(e) => out.fail(id, "-t output does not assemble", &e.to_string()),
         Ok(bytes) => {
-            let mut v = wasmparser::Validator::new_with_features(wasmparser::WasmFeatures::all());
-            if let Err(e) = v.validate_all(&bytes) {
-                out.fail(id, "-t output assembles to an invalid component", &e.to_string());
+            let valid = is_valid(&bytes);
+            let expected = must_validate || binary.map(is_valid).unwrap_or(true);
+            if valid != expected {
+                out.fail(id, "-t output assembles to a component whose validity differs from the binary output's", &format!("reassembled valid={valid}, expected valid={expected}"));
             } else if wasmprinter::print_bytes(&bytes).ok().as_deref() != Some(s) {
                 out.fail(id, "-t output is not the printed form of the component it assembles to", "");
-            } else {
+            } else if valid {
                 out.count("text:reassembled-valid");
+            } else {
+                out.count("text:reassembled-invalid-as-binary(no-validate)");
             }
         }
     }
@@ -459,7 +468,9 @@ fn main() {
                 }
                 if o.exit == Some(0) && wat {
                     let text = if with_output { file.clone().unwrap_or_default() } else { o.stdout[..o.stdout.len().saturating_sub(1)].to_vec() };
-                    check_text(&mut out, &id, &text);
+                    // results: (define, validate) = TT, TF, FT, FF
+                    let same_options = &results[(if import_deps { 2 } else { 0 }) + (if no_validate { 1 } else { 0 })];
+                    check_text(&mut out, &id, &text, !no_validate, same_options.as_ref().ok().map(|b| &b[..]));
                 }
                 fs::remove_dir_all(&cwd).ok();
             }
@@ -547,7 +558,7 @@ fn main() {
             }
             if o.exit == Some(0) && wat {
                 let text = if with_output { file.clone().unwrap_or_default() } else { o.stdout[..o.stdout.len().saturating_sub(1)].to_vec() };
-                check_text(&mut out, &id, &text);
+                check_text(&mut out, &id, &text, true, None);
             }
             fs::remove_dir_all(&cwd).ok();
         }
